@@ -25,7 +25,7 @@ RULE = ("seeded products: sample type x geometry class (1x1,1xN,Nx1,NxM; lines u
         "(type, geometry, pattern, filesystem, rpc class) signatures")
 ASSUMPTIONS = ["only well-formed image files are generated (record length = prefix + pixels x sample size)",
                "expected samples are taken from the bytes the independent encoder wrote"]
-REQUIRED_OBS = ["elements_compared", "contract_evals", "replaced_in_place"]
+REQUIRED_OBS = ["elements_compared", "contracts_ok", "replaced_in_place"]
 
 PATTERNS = ["random", "random", "edges", "zeros", "ones", "index", "finite"]
 N_RANDOM = {"quick": 360, "thorough": 6000}
@@ -180,6 +180,8 @@ def run_case(i, tier, seed):
     for f in contracts.drain():
         violations.append({"what": f"contract {f['contract']} failed", "detail": f["detail"]})
     obs["contract_evals"] = sum(contracts.EVALS.values())
+    obs["contracts_ok"] = int(contracts.ok())  # evaluated, or not attachable at all (listed in the sample)
+    obs["contracts_unavailable"] = len(contracts.UNAVAILABLE)
     contracts.EVALS.clear()
     return {"sig": sigs, "evals": obs["images"], "violations": violations, "obs": obs, "sample": sample,
             "nontrivial": obs["images"] > 0}
